@@ -194,6 +194,8 @@ def run_history(case, two_d_monitors=False):
         if n_ops > 4 * n_inc + 50:
             break
         r = rng.random()
+        if case.get('long') and r >= 0.5:
+            r = 0.5 + (r - 0.5) * 0.2 if rng.random() < 0.8 else r      # long histories: mostly integrate / predict
         cap = len(I.lla)
         rows = len(I.trajectory)
         try:
@@ -202,6 +204,8 @@ def run_history(case, two_d_monitors=False):
                 room = cap - rows
                 choices = [0, 1, int(rng.integers(0, 8)), room, max(room - 1, 0), room + 1, 2 * cap + 1,
                            int(rng.integers(0, max(2, n_inc // 3)))]
+                if case.get('long'):
+                    choices = [int(rng.integers(1, 1500)), 1000, 999, 1001, 700, int(rng.integers(1, 40)), room, room + 1]
                 k = int(min(max(choices[int(rng.integers(0, len(choices)))], 0), n_inc - pos))
                 chunk = inc.iloc[pos:pos + k]
                 ops.append(('integrate', k))
